@@ -6,7 +6,9 @@ CONSTANT L
 GUtts == { [id |-> 1, form |-> "slice", timed |-> FALSE], [id |-> 1, form |-> "labels", timed |-> FALSE],
            [id |-> 1, form |-> "vec", timed |-> TRUE],     [id |-> 1, form |-> "array", timed |-> FALSE],
            [id |-> 2, form |-> "slice", timed |-> TRUE],   [id |-> 2, form |-> "vec", timed |-> FALSE],
-           [id |-> 3, form |-> "labels", timed |-> FALSE], [id |-> 3, form |-> "slice", timed |-> TRUE] }
+           [id |-> 3, form |-> "labels", timed |-> FALSE], [id |-> 3, form |-> "slice", timed |-> TRUE],
+           [id |-> 1, form |-> "slice", timed |-> TRUE],   [id |-> 2, form |-> "vec", timed |-> TRUE],
+           [id |-> 3, form |-> "array", timed |-> TRUE],   [id |-> 3, form |-> "vec", timed |-> TRUE] }
 VARIABLE hist
 gvars == <<vars, hist>>
 GInit == Init /\ hist = <<>>
